@@ -21,6 +21,7 @@
 
 #include <unistd.h>
 #include <string.h>
+#include <alloca.h>
 #include <tbox/base/defines.h>
 #include <tbox/base/log.h>
 #include <tbox/base/scope_exit.hpp>
@@ -82,10 +83,22 @@ void SignalHandlerFunc(int signo)
 #endif
 
     //! 再执行自己的
-    for (int fd : this_signal_ctx.write_fds) {
-        auto wsize = write(fd, &signo, sizeof(signo));
+    //! 注意: 必须先把 write_fds 复制出来，然后再逐一写入，不能边遍历边写。
+    //!       Each write wakes a Loop thread. A one-shot SignalEvent of that Loop then calls
+    //!       unsubscribeSignal() at once, which erases its fd from write_fds (and may erase the
+    //!       whole SignalCtx) while this handler is still iterating on another thread. The
+    //!       iterator then walks a freed node and a fd may be written twice or skipped.
+    //!       So nothing of this_signal_ctx may be touched after the first write.
+    const size_t fd_num = this_signal_ctx.write_fds.size();
+    int *fds = static_cast<int*>(alloca(fd_num * sizeof(int)));
+    size_t fd_count = 0;
+    for (int fd : this_signal_ctx.write_fds)
+        fds[fd_count++] = fd;
+
+    for (size_t i = 0; i < fd_count; ++i) {
+        auto wsize = write(fds[i], &signo, sizeof(signo));
         (void)wsize;    //! 消除编译警告
-        CPP_TBOX_VERIF_POINT("event.signal.written", signo, fd);
+        CPP_TBOX_VERIF_POINT("event.signal.written", signo, fds[i]);
     }
 }
 
